@@ -5,13 +5,13 @@ import os
 
 from tfv import core
 from tfv.core import Violation, run_async
-from tfv.gen import gen_const_value, gen_schema, literal_to_json
+from tfv.gen import gen_const_value, gen_schema, gen_split, literal_to_json
 from tfv.impl import Harness, clean_registry
-from tfv.model import canon, kind_of, print_document, ty, ty_str
+from tfv.model import canon, kind_of, print_document, ty, ty_str, value_vars
 from tfv.props import c04
 from tfv.ref import ABSENT, RefInputError, coerce_argument_values, coerce_literal, coerce_variable_values
 
-from tartiflette import Directive
+from tartiflette import Directive, Subscription
 
 ID = "C05"
 LEVEL = "exploration"
@@ -29,6 +29,27 @@ RULE = (
     "Distinct = SHA-1 of (type, value, ways); non-trivial = delivered by >= 2 different ways and the type is not a bare built-in scalar."
 )
 ASSUMPTIONS = c04.ASSUMPTIONS + ["SDL-side default values use no block strings (tartiflette's SDL parser keeps block strings raw; see DESIGN)"]
+
+
+class ArgHarness(Harness):
+    """adds a @Subscription source per field of the subscription root (if any): logs the arguments it was created
+    with (kept for scramble_live, like the resolvers' dictionaries) and yields one event"""
+
+    def registration_steps(self):
+        steps = super().registration_steps()
+        root = self.schema["roots"].get("subscription")
+        H = self
+
+        def mk(fn):
+            async def source(parent, args, ctx, info):
+                H.sargs.append((fn, copy.deepcopy(args)))
+                H.live_args.append(args)
+                yield {}
+            return source
+
+        for fn in (self.schema["types"][root]["fields"] if root else ()):
+            steps.append(lambda fn=fn: Subscription("%s.%s" % (root, fn), schema_name=self.name)(mk(fn)))
+        return steps
 
 
 def sub_positions(schema, t, lit, path=()):
@@ -78,20 +99,11 @@ def build_engine(c):
         q["fields"]["sd%d" % i] = {"type": "String", "args": {}, "dirs": [{"name": "dd%d" % i, "args": []}]}
     schema["types"]["Query"] = q
     schema["roots"] = {"query": "Query"}
-    clean_registry()
-    h = Harness(schema, {"default_fields": []}, None)
-    h.serve = lambda rs, parent, obj, field, args, path: "ok"
-    h.dargs = []
-
-    def mk(name):
-        class D:
-            async def on_field_execution(self, directive_args, next_resolver, parent, args, ctx, info):
-                h.dargs.append((info.path.as_list()[0], name, copy.deepcopy(directive_args)))
-                return await next_resolver(parent, args, ctx, info)
-        return D
-
-    h.directive_factory = mk
-    run_async(h.build())
+    schema["types"]["Subscription"] = {"kind": "OBJECT", "interfaces": [], "fields": {k: {"type": "String", "args": f["args"]} for k, f in q["fields"].items() if k.startswith("e")}}
+    schema["roots"]["subscription"] = "Subscription"
+    # input objects and enums may be spelled as definition + `extend` block; resolvers work on their arguments in place
+    schema["plan"] = {"default_fields": [], "sdl_split": gen_split(c, schema, ("INPUT", "ENUM")), "scramble_args": True}
+    h = rebuild({"schema": schema})
     return schema, pairs, h
 
 
@@ -190,6 +202,7 @@ def check(spec, h=None):
         return await h.engine.execute(printed.text, operation_name="Q", context=h.ctx_token, variables=copy.deepcopy(spec["variables"]))
 
     resp = run_async(go())
+    h.scramble_live()
     ctx = "\ntype=%s value=%s\nquery: %s\nvariables: %s\nresponse: %s" % (spec["type"], spec["value"], printed.text, json.dumps(core.jsonable(spec["variables"])), str(resp)[:1500])
     values, bad = coerce_variable_values(schema, op, spec["variables"])
     if bad:
@@ -254,6 +267,33 @@ def check(spec, h=None):
         elif way == "sibling":
             if data.get(alias) != "ok" or (alias,) in err_paths:
                 raise Violation(spec, "sibling field affected%s" % ctx, tag="sibling")
+    # the same field as the root of a subscription: the source generator and the per-event resolver both get the dictionary
+    for alias in spec.get("sub_ways") or ():
+        s = [x for x in op["sels"] if x["alias"] == alias][0]
+        used = []
+        for _, av in s["args"]:
+            value_vars(av, used)
+        sdoc = {"defs": [{"k": "op", "type": "subscription", "name": "S", "vars": [vd for vd in op["vars"] if vd["name"] in used], "dirs": [], "sels": [s], "id": 999}]}
+        stext = print_document(sdoc).text
+        svars = {k: v for k, v in spec["variables"].items() if k in used}
+        exp = coerce_argument_values(schema, qf[s["name"]]["args"], s["args"], values)
+        h.reset_logs()
+        h.sargs = []
+
+        async def go_sub():
+            return [r async for r in h.engine.subscribe(stext, operation_name="S", context=h.ctx_token, variables=copy.deepcopy(svars))]
+
+        out = run_async(go_sub())
+        h.scramble_live()
+        sctx = "\nsubscription: %s\nvariables: %s\nresponses: %s" % (stext, json.dumps(core.jsonable(svars)), str(out)[:800])
+        if out != [{"data": {alias: "ok"}}]:
+            raise Violation(spec, "way %s as a subscription root: expected one event answered with 'ok'%s" % (alias, sctx), tag="sub_resp:" + alias)
+        res_args = [args for p, co, nid, args, ok in h.calls]
+        for who, seen in (("source generator", [a for _, a in h.sargs]), ("resolver", res_args)):
+            if len(seen) != 1:
+                raise Violation(spec, "way %s as a subscription root: %s ran %d times%s" % (alias, who, len(seen), sctx), tag="sub_runs:" + alias)
+            if canon(core.jsonable(seen[0])) != canon(core.jsonable(exp)) or not c04.same_types(seen[0], exp):
+                raise Violation(spec, "way %s as a subscription root: the %s received %r, the specification prescribes %r%s" % (alias, who, seen[0], exp, sctx), tag="sub_args:" + alias)
     return len([w for w in spec["ways"].values() if w.startswith("same")])
 
 
@@ -263,10 +303,12 @@ def case(c, stats):
         j = (i + 1) % len(pairs)
         spec = make_request(c, schema, i, t, v, other=(j, pairs[j][0], pairs[j][1]) if j != i else None)
         spec["pairs"] = pairs
+        eligible = sorted(a for a, w in spec["ways"].items() if w in ("same", "absent", "null"))
+        spec["sub_ways"] = sorted({c.choice(eligible) for _ in range(3)})
         nsame = check(spec, h)
         T = ty(t)
         bare = T[0] == "N" and kind_of(schema, T[1]) == "SCALAR" and T[1] in ("Int", "Float", "String", "Boolean", "ID")
-        labels = ["way:" + w for w in spec["ways"]] + ["named:" + kind_of(schema, __import__("tfv.model", fromlist=["named"]).named(T))]
+        labels = ["way:" + w for w in spec["ways"]] + ["sub:" + w for w in spec["sub_ways"]] + ["named:" + kind_of(schema, __import__("tfv.model", fromlist=["named"]).named(T))]
         stats.case({"t": t, "v": v, "w": sorted(spec["ways"]), "s": schema["types"]}, nsame >= 2 and not bare, labels,
                    {"type": t, "value": v, "query": print_document(spec["doc"]).text, "variables": spec["variables"]})
 
@@ -282,12 +324,13 @@ def run_worker(seed, tier, index, nworkers):
 
 
 def rebuild(spec):
-    """engine for a replayed spec: same SDL as build_engine would produce from (schema, pairs)"""
+    """engine for (schema, plan): also used to replay a spec"""
     schema = spec["schema"]
     clean_registry()
-    h = Harness(schema, {"default_fields": []}, None)
+    h = ArgHarness(schema, schema.get("plan") or {"default_fields": []}, None)
     h.serve = lambda rs, parent, obj, field, args, path: "ok"
     h.dargs = []
+    h.sargs = []
 
     def mk(name):
         class D:
